@@ -30,6 +30,13 @@ CHECKS = {
         note=TRUST + "; 'identical overlap matrix' follows from equality of the basis functions in order + determinism, the integral code itself is C06; flattening lemma stated, not mechanised",
         technique="contract-based deductive verification (AST symbolic execution -> z3 VCs, generic-iteration loop rule, induction lemmas) + bounded random bases/orbitals on the real functions",
     ),
+    "C07": dict(
+        category="proof",
+        text="The format-level readers and the IOData constructor are havoc'ed (any result, any subclass of Exception, for every possible file content at once) and the real load_one / load_many / warning re-issuer / LineIterator / error classes are executed symbolically: only FileFormatError (before the file is opened) or LoadError escapes, the message names the file and the iterator's line number, the file is closed on every exit path incl. generator close, LineIterator keeps lineno == lines taken - pushed back. Termination: one `decreases` obligation per parser loop over the ghost measure lines-left + push-back depth, discharged by path enumeration; nine loops carry a declared, unproved argument (listed in the evidence). Corpus truncation/mutation is a bounded cross-check only.",
+        design_ref="DESIGN.md 6/C07",
+        note=TRUST + "; default warning filters; BaseExceptions other than GeneratorExit out of scope; GC-time close of dropped generators; nine declared termination arguments",
+        technique="contract-based deductive verification: exception-flow/resource contracts by AST symbolic execution with havoc'ed callees, data-structure invariant of LineIterator, termination measure per loop; bounded corpus mutation as cross-check",
+    ),
     "C08": dict(
         category="proof",
         text="The real bodies of dump_one, dump_many (incl. the nested checking_iterator), write_input, _check_required and the warning re-issuer are executed symbolically with all format-level callees havoc'ed (they may raise any subclass of Exception at any call, every write may fail), for each of the 13 dump_one and 4 dump_many modules with their real `required` lists: escaping exception classes, PrepareDumpError/FileFormatError before any open event, DumpError/WriteInputError after it, close on every path, first-frame pre-flight and lazy one-pull-per-frame order of dump_many are proved for all inputs and all fault positions.",
